@@ -4,7 +4,7 @@ CONSTANTS
   NT = 2
   NE = 4
   MaxNow = 1
-  Kinds <- KindsNoB
+  Kinds <- KindsAM
   TimePats <- Pats4q
   Sels <- SelAll
   PortMaps <- PMmixed
